@@ -24,6 +24,7 @@ RULE = (
     "the dataset, a missing path and a missing file; unrelated attribute/group/dataset unchanged. Non-trivial = "
     ">=3 steps including a cross-file operation or a re-creation over an occupied path. Distinct by sha1 of the "
     "history."
+    ' Each creation may give an assembly name and metadata; the metadata query of every collection must return what ITS creation gave (defaults otherwise) after every step, in particular after a re-creation at the root. A creation from a pixel stream that yields no chunk (two-step route, append mode) is refused or makes an empty collection - nothing else changes.'
     ' Creation inside histories also through `cooler load [--append]` (write mode drawn often); soft links whose source is itself a link; recognition probes and listings on files that contain dangling soft/external links (and paths below them).'
 )
 ASSUMPTIONS = [
@@ -138,6 +139,10 @@ class World:
         fi, path = op["file"], POOL[op["path"] % len(POOL)]
         mode = op["mode"]
         exists = os.path.exists(self.files[fi])
+        if op.get("via") == "api-empty-stream":
+            if not exists:
+                return False
+            mode = "a"          # the interesting case: other collections are in the file already
         ent = self.entries[fi].get(path)
         if ent is not None and ent["kind"] != "cooler":
             return False
@@ -174,11 +179,30 @@ class World:
                 self.ctx.clean(d)
             extra = None
             op = dict(op, with_weight=False)
+        elif op.get("via") == "api-empty-stream":
+            # a pixel stream that yields no chunk at all, through the two-step (sort-and-merge) route: refused, or an empty
+            # collection - either way nothing else in the file may change (the invariants below run after every step)
+            akw = {"assembly": op["assembly"]} if op.get("assembly") else {}
+            try:
+                cooler.create_cooler(self.uri(fi, path, op["slash"]), gen.bins_df(bt, extra=extra), iter([]), ordered=False,
+                                     symmetric_upper=sym, mode=mode if exists else "w", h5opts={"compression": None}, **akw)
+            except Exception:  # noqa: BLE001 - a refusal is acceptable; the model stays as it is and the invariants run
+                if ent is not None:
+                    return False    # (a refused RE-creation may legitimately have removed the old collection first: not judged)
+                return None
+            rows = []
+            op = dict(op, rows=[])
         else:
+            akw = {"assembly": op["assembly"]} if op.get("assembly") else {}
+            if op.get("meta"):
+                akw["metadata"] = {"tag": op["tag"], "who": "c15"}
             call(f"create_cooler(mode={mode!r}) at {path}", cooler.create_cooler, self.uri(fi, path, op["slash"]),
                  gen.bins_df(bt, extra=extra), pixel_frame(rows), ordered=True, symmetric_upper=sym,
-                 mode=mode if exists else "w", h5opts={"compression": None})
-        content = {"bt": bt, "rows": rows, "symmetric": sym, "weight": op["tag"] if op["with_weight"] else None}
+                 mode=mode if exists else "w", h5opts={"compression": None}, **akw)
+        content = {"bt": bt, "rows": rows, "symmetric": sym, "weight": op["tag"] if op["with_weight"] else None,
+                   # what the metadata query must return: the values given at THIS creation, the documented defaults otherwise
+                   "assembly": (op.get("assembly") or "unknown") if op.get("via") != "cli-load" else "unknown",
+                   "metadata": {"tag": op["tag"], "who": "c15"} if op.get("meta") and op.get("via") in (None, "api") else {}}
         if mode == "w" or not exists:
             self.entries[fi] = {}
             self.unrelated[fi] = None
@@ -364,6 +388,11 @@ class World:
                 check(inf.get("nnz") == len(want["rows"]) and inf.get("nbins") == gen.n_bins(want["bt"]),
                       f"after {self.history[-1]['op']}: f{fi}::{p} attributes nnz/nbins = {inf.get('nnz')}/{inf.get('nbins')} belong to another collection")
                 check(clr.storage_mode == ("symmetric-upper" if want["symmetric"] else "square"), f"f{fi}::{p} storage mode differs")
+                if "assembly" in want:
+                    check(inf.get("genome-assembly") == want["assembly"],
+                          lambda: f"after {self.history[-1]['op']}: f{fi}::{p} reports assembly {inf.get('genome-assembly')!r}, the collection was created with {want['assembly']!r}")
+                    check(inf.get("metadata") == want["metadata"],
+                          lambda: f"after {self.history[-1]['op']}: f{fi}::{p} reports metadata {inf.get('metadata')!r}, the collection was created with {want['metadata']!r}")
                 b = clr.bins()[0:0]
                 if want["weight"] is None:
                     check("weight" not in b.columns, f"after {self.history[-1]['op']}: f{fi}::{p} still carries a 'weight' column of a replaced collection")
@@ -417,14 +446,16 @@ def make_machine(ctx: Ctx):
 
         @rule(c=_content(), file=st.integers(0, 1), path=st.integers(0, 6), mode=st.sampled_from(["a"] * 11 + ["w"]),
               with_weight=st.booleans(), slash=st.booleans(), add_unrelated=st.booleans(),
-              via=st.sampled_from(["api", "api", "api", "cli-load"]), wmode=st.sampled_from(["a", "w", "w"]))
-        def create(self, c, file, path, mode, with_weight, slash, add_unrelated, via, wmode):
+              via=st.sampled_from(["api", "api", "api", "cli-load", "api-empty-stream"]), wmode=st.sampled_from(["a", "w", "w"]),
+              assembly=st.sampled_from([None, None, "hg19", "mm10"]), meta=st.booleans())
+        def create(self, c, file, path, mode, with_weight, slash, add_unrelated, via, wmode, assembly, meta):
             bt, sym, rows = c
             self.tag += 1
             if via == "cli-load":
                 mode = wmode        # the command line's default is write mode: drawn far more often than through the API
             self.w.apply({"op": "create", "bt": bt, "rows": rows, "symmetric": sym, "file": file, "path": path, "mode": mode,
-                          "with_weight": with_weight, "tag": self.tag, "slash": slash, "add_unrelated": add_unrelated, "via": via})
+                          "with_weight": with_weight, "tag": self.tag, "slash": slash, "add_unrelated": add_unrelated, "via": via,
+                          "assembly": assembly, "meta": meta})
 
         @rule(src_file=st.integers(0, 1), src=st.integers(0, 9), dst_file=st.integers(0, 1), dst=st.integers(0, 9), slash=st.booleans(), cli=st.booleans())
         def cp(self, src_file, src, dst_file, dst, slash, cli):
